@@ -9,6 +9,16 @@ import warnings
 def main():
     pid, fin, fout = sys.argv[1:4]
     stage = os.environ["DATASCOPE_STAGE"]
+    cov = None
+    if os.environ.get("DSV_COVERAGE") == "1":
+        # line coverage of the STAGED implementation (pure-Python part) under the correspondence cases: evidence of how much
+        # of the modelled code the generated inputs actually run (reported per anchored function, never a verdict)
+        try:
+            import coverage
+            cov = coverage.Coverage(data_file=None, include=[os.path.join(os.path.abspath(stage), "datascope", "*")])
+            cov.start()
+        except Exception:  # noqa
+            cov = None
     import datascope
     assert os.path.abspath(datascope.__file__).startswith(os.path.abspath(stage)), (datascope.__file__, stage)
     import datascope.importance.shapley_cy as cy
@@ -28,6 +38,19 @@ def main():
             outs.append({"exc": type(e).__name__, "msg": str(e)[:300],
                          "tb": traceback.format_exc()[-600:]})
     json.dump(outs, open(fout, "w"))
+    if cov is not None:
+        try:
+            cov.stop()
+            data = cov.get_data()
+            root = os.path.abspath(stage) + os.sep
+            res = {}
+            for f in data.measured_files():
+                if f.startswith(root):
+                    _, stmts, _, missing, _ = cov.analysis2(f)      # coverage.py's own statement normalisation
+                    res[f[len(root):]] = {"stmts": sorted(stmts), "executed": sorted(set(stmts) - set(missing))}
+            json.dump(res, open(fout + ".cov", "w"))
+        except Exception:  # noqa
+            pass
 
 
 if __name__ == "__main__":
